@@ -167,7 +167,7 @@ theorem extremaLoop_spec {E : Env} (hE : OracleExact E) {hook : PModel → M Uni
           obtain ⟨hp, hsat, hstep⟩ := hck
           have hm : PartialModelOf (PModel.ofKeys vals keys) A :=
             hp.mono (fun c hc => List.mem_append_left _ (hA c hc))
-          obtain ⟨hok, hst, hobjs⟩ := hh.step (PModel.ofKeys vals keys) s1 r hm
+          obtain ⟨hok, hst, hobjs⟩ := hh.step (PModel.ofKeys vals keys) s1 r hm (PModel.sorted_ofKeys vals keys)
           rcases hk : hook (PModel.ofKeys vals keys) s1 with ⟨res2, s2⟩
           rw [hk] at hok hst hobjs
           simp only at hok hobjs
@@ -281,7 +281,7 @@ theorem z3Extrema_spec {E : Env} (hE : OracleExact E) {hook : PModel → M Unit}
         have hA1 : ∀ c ∈ A, c ∈ (objAt s r).asserted ++ (extra ++ [eqCon e (if isMax = true then hi else lo)]) :=
           fun c hc => List.mem_append_left _ (hA c hc)
         have hm : PartialModelOf (PModel.ofKeys vals keys) A := hp.mono hA1
-        obtain ⟨hok, hst, hobjs⟩ := hh.step (PModel.ofKeys vals keys) s2 r hm
+        obtain ⟨hok, hst, hobjs⟩ := hh.step (PModel.ofKeys vals keys) s2 r hm (PModel.sorted_ofKeys vals keys)
         rcases hk : hook (PModel.ofKeys vals keys) s2 with ⟨res3, s3⟩
         rw [hk] at hok hst hobjs
         simp only at hok hobjs
